@@ -6,8 +6,9 @@
     contexts, arguments) starting from a deployment; subscriber contracts are
     abstract: [sub_ok h] (deployed with newEpoch/1), [sub_accepts h e]
     (its newEpoch(e) returns normally), both arbitrary. *)
-From Verif Require Import Base.Prelude Base.IntCodec Model.Netmap Spec.NetmapSpec
-  Proofs.NetmapBase Proofs.NetmapCand Proofs.NetmapTick.
+From Verif Require Import Base.Prelude Base.IntCodec Model.StoreLib Model.Netmap Spec.NetmapSpec
+  Proofs.NetmapBase Proofs.NetmapCand Proofs.NetmapTick Model.EpochSystem Proofs.EpochSystem.
+From Verif Require Model.Balance Model.Estimations Spec.Stores Proofs.BalanceLock Props.C09 Props.C20.
 Local Open Scope Z_scope.
 
 (** Invariant of every reachable state: the snapshot count stays within
@@ -183,3 +184,245 @@ Example C06_nonvacuous :
   snd (nstep exOk exAcc (nrun_from exOk exAcc (ninit []) (take 9 ex_hist)) (mkNC [] true 14, NewEpoch 3))
   = [NCall exB 3; NCall exA 3; NNewEpoch 3].
 Proof. vm_compute. auto 10. Qed.
+
+
+(** * The epoch tick as a cross-contract protocol
+
+    Model/EpochSystem.v composes Netmap with its two subscribers of the real
+    deployment, Balance (releases expired locks, C09) and Container (cleans
+    old size estimations, C20).  Tied to the code by the composed
+    correspondence of ./check C06 (cases_C06_sys.v: netmap, balance and
+    container compiled from the tree, the subscriptions made by their
+    deployments, ticks delivered through netmap.newEpoch).
+
+    Quantification: every state reachable by ANY history of the composed
+    system from a deployment; arbitrary contexts; arbitrary other subscribers
+    ([other_ok], [other_accepts]); arbitrary estimation parameters; the only
+    premise is that Balance and Container are different contracts. *)
+Section Sys.
+  Variables (d1 d2 : Z) (cap : list Z -> bool).
+  Variables (nmH balH cntH : bytes).
+  Variable other_ok : bytes -> bool.
+  Variable other_accepts : bytes -> Z -> bool.
+  Hypothesis Hdistinct : balH <> cntH.
+  Variable cfg : list (bytes * bytes).
+
+  Notation sys_exec := (sys_exec d1 d2 cap nmH balH cntH other_ok other_accepts).
+  Notation sys_step := (sys_step d1 d2 cap nmH balH cntH other_ok other_accepts).
+  Notation reach ops := (sys_run_from d1 d2 cap nmH balH cntH other_ok other_accepts (sys_init cfg) ops).
+  Notation accepts := (sys_accepts d1 d2 cap nmH balH cntH other_accepts).
+  Notation callee := (callee_bctx nmH).
+
+  Lemma reach_inv ops : tick_inv (s_nm (reach ops)).
+  Proof. apply sys_run_tick_inv; [exact Hdistinct|]. apply ninit_tick_inv. Qed.
+
+  (** A successful system tick at epoch [e]:
+      - Netmap: exactly the tick of Model/Netmap.v with [sub_accepts]
+        instantiated by the callee models — so everything C06 says about a
+        successful tick holds: the candidate set is published in both formats,
+        the height recorded, candidates and subscribers unchanged, every
+        subscriber called exactly once in index order;
+      - Balance: its own [NewEpoch e] step applied exactly once (with the
+        context it really sees) if it is subscribed, untouched otherwise;
+      - Container estimations: its own tick [e] applied exactly once if it is
+        subscribed, untouched otherwise. *)
+  Theorem C06_system_tick : forall ops c e S' r ns,
+    let S := reach ops in
+    sys_exec c S (SNm (NewEpoch e)) = Halt (S', r, ns) ->
+    (* Netmap *)
+    nexec (sys_sub_ok balH cntH other_ok) (accepts c (s_bal S) (s_est S)) (nctx_of c) (s_nm S) (NewEpoch e)
+      = Halt (s_nm S', map (fun h => NCall h e) (subscribers (s_nm S)) ++ [NNewEpoch e]) /\
+    (e < 2 ^ 32 ->
+       r_netmap (s_nm S') = Halt (filter (fun n => nst n <> Offline) (r_netmap_candidates (s_nm S))) /\
+       r_list_nodes (s_nm S') e = r_list_candidates (s_nm S)) /\
+    r_epoch (s_nm S') = e /\ r_last_epoch_block (s_nm S') = s_height c /\
+    cands (s_nm S') = cands (s_nm S) /\ cands2 (s_nm S') = cands2 (s_nm S) /\
+    subscribers (s_nm S') = subscribers (s_nm S) /\ NoDup (subscribers (s_nm S)) /\
+    (* the calls, in index order, each once, then the NewEpoch notification *)
+    List.filter (fun n => match n with SN _ => true | SB _ => false end) ns
+      = map (fun h => SN (NCall h e)) (subscribers (s_nm S)) ++ [SN (NNewEpoch e)] /\
+    r = VNull /\
+    (* Balance *)
+    (balH ∈ subscribers (s_nm S) ->
+       exists r' bns, Balance.bexec (callee c) (s_bal S) (Balance.NewEpoch e) = Halt (s_bal S', r', bns)) /\
+    (balH ∉ subscribers (s_nm S) -> s_bal S' = s_bal S) /\
+    (* Container estimations *)
+    (cntH ∈ subscribers (s_nm S) ->
+       Estimations.eexec d1 d2 cap (s_est S) (Estimations.ETick (s_alpha c) e) = Halt (s_est S')) /\
+    (cntH ∉ subscribers (s_nm S) -> s_est S' = s_est S).
+  Proof.
+    intros ops c e S' r ns S He. pose proof (reach_inv ops) as Hi. fold S in Hi.
+    destruct (sys_tick_shape d1 d2 cap nmH balH cntH other_ok other_accepts Hdistinct c S e S' r ns Hi He)
+      as (Hc & -> & -> & ->).
+    pose proof (sys_tick_is_netmap_tick d1 d2 cap nmH balH cntH other_ok other_accepts c S e Hi) as Hn.
+    rewrite Hc in Hn. cbn [s_nm s_bal s_est sys_tick_result].
+    assert (Hlt : epoch (s_nm S) < e).
+    { unfold sys_tick_cond in Hc. lia. }
+    destruct (sys_tick_balance d1 d2 cap nmH balH cntH other_ok other_accepts Hdistinct c S e _ _ _ Hi He) as [B1 B2].
+    destruct (sys_tick_estimations d1 d2 cap nmH balH cntH other_ok other_accepts Hdistinct c S e _ _ _ Hi He) as [E1 E2].
+    cbn [s_bal s_est sys_tick_result] in B1, B2, E1, E2.
+    split; [exact Hn|]. split.
+    { intros H32. destruct (tick_publishes (nctx_of c) (s_nm S) e Hi ltac:(lia)) as (P1 & P2 & _). split; assumption. }
+    destruct Hi as (Hr & Hs & Hrest).
+    assert (Hpub : forall P : Prop, (epoch (s_nm S) < e -> P) -> P) by auto.
+    unfold tick_result. cbv zeta. rewrite tick_state_eq. cbn [r_epoch r_last_epoch_block epoch eblock cands cands2 nctx_of height].
+    repeat split; try assumption.
+    - destruct Hs as (hs & Hnd & _ & Hk). by rewrite (subs_indexed_subscribers (s_nm S) hs Hk).
+    - rewrite List.filter_app. cbn [List.filter app]. f_equal. generalize (subscribers (s_nm S)). intros l.
+      induction l as [|h l IH]; [reflexivity|]. cbn [flat_map map]. unfold call_events at 1.
+      rewrite List.filter_app. cbn [List.filter]. rewrite IH. cbn [app]. f_equal.
+      destruct (bytes_eqb h balH); [|reflexivity].
+      destruct (bal_tick nmH c (s_bal S) e) as [[? bns]|]; [|reflexivity].
+      induction bns as [|n bns IHb]; [reflexivity|exact IHb].
+  Qed.
+
+  (** It halts iff the Netmap conditions hold (Alphabet witness, growing
+      epoch, every other subscriber accepts) and both callee steps halt. *)
+  Theorem C06_system_tick_iff : forall ops c e,
+    let S := reach ops in
+    (exists S' r ns, sys_exec c S (SNm (NewEpoch e)) = Halt (S', r, ns)) <->
+    (s_alpha c = true /\ epoch (s_nm S) < e /\
+     (balH ∈ subscribers (s_nm S) ->
+        exists x, Balance.bexec (callee c) (s_bal S) (Balance.NewEpoch e) = Halt x) /\
+     (cntH ∈ subscribers (s_nm S) ->
+        exists x, Estimations.eexec d1 d2 cap (s_est S) (Estimations.ETick (s_alpha c) e) = Halt x) /\
+     (forall h, h ∈ subscribers (s_nm S) -> h <> balH -> h <> cntH -> other_accepts h e = true)).
+  Proof.
+    intros ops c e S. pose proof (reach_inv ops) as Hi. fold S in Hi.
+    rewrite (sys_tick_halts_iff d1 d2 cap nmH balH cntH other_ok other_accepts Hdistinct c S e Hi).
+    assert (Hcb : bytes_eqb cntH balH = false) by (apply bytes_eqb_neq; congruence).
+    split.
+    - intros (Ha & Hlt & Hall). repeat split; try assumption.
+      + intros Hin. specialize (Hall _ Hin). unfold sys_accepts in Hall. rewrite bytes_eqb_refl in Hall.
+        unfold bal_tick in Hall. destruct (Balance.bexec _ _ _) as [x|]; [eauto|discriminate].
+      + intros Hin. specialize (Hall _ Hin). unfold sys_accepts in Hall. rewrite Hcb, bytes_eqb_refl in Hall.
+        unfold est_tick in Hall. destruct (Estimations.eexec _ _ _ _ _) as [x|]; [eauto|discriminate].
+      + intros h Hin Hb Hc. specialize (Hall _ Hin). unfold sys_accepts in Hall.
+        apply bytes_eqb_neq in Hb, Hc. by rewrite Hb, Hc in Hall.
+    - intros (Ha & Hlt & HB & HC & HO). repeat split; try assumption. intros h Hin. unfold sys_accepts.
+      destruct (bytes_eqb h balH) eqn:Eb.
+      + apply bytes_eqb_eq in Eb. subst h. destruct (HB Hin) as [[[b' r'] bns] Hx].
+        unfold bal_tick. by rewrite Hx.
+      + destruct (bytes_eqb h cntH) eqn:Ec.
+        * apply bytes_eqb_eq in Ec. subst h. destruct (HC Hin) as [x Hx]. unfold est_tick. by rewrite Hx.
+        * apply HO; [exact Hin|by apply bytes_eqb_neq..].
+  Qed.
+
+  (** Whole-transaction atomicity: if the step of any subscriber faults —
+      Balance's, Container's or another contract's — the whole product state
+      is unchanged and nothing is announced; and in general a failed
+      transaction of the composed system changes nothing anywhere. *)
+  Theorem C06_system_atomic : forall ops c e h,
+    let S := reach ops in
+    h ∈ subscribers (s_nm S) ->
+    (h = balH /\ Balance.bexec (callee c) (s_bal S) (Balance.NewEpoch e) = Fault) \/
+    (h = cntH /\ Estimations.eexec d1 d2 cap (s_est S) (Estimations.ETick (s_alpha c) e) = Fault) \/
+    (h <> balH /\ h <> cntH /\ other_accepts h e = false) ->
+    sys_step S (c, SNm (NewEpoch e)) = (S, VFault, []).
+  Proof.
+    intros ops c e h S Hin Hrej. pose proof (reach_inv ops) as Hi. fold S in Hi.
+    apply (sys_tick_rejected d1 d2 cap nmH balH cntH other_ok other_accepts Hdistinct c S e h Hi Hin).
+    unfold sys_accepts. destruct Hrej as [(-> & Hf)|[(-> & Hf)|(Hb & Hc & Hf)]].
+    - rewrite bytes_eqb_refl. unfold bal_tick. by rewrite Hf.
+    - assert (Hcb : bytes_eqb cntH balH = false) by (apply bytes_eqb_neq; congruence).
+      rewrite Hcb, bytes_eqb_refl. unfold est_tick. by rewrite Hf.
+    - apply bytes_eqb_neq in Hb, Hc. by rewrite Hb, Hc.
+  Qed.
+
+  Theorem C06_system_failed_is_inert : forall S co,
+    sys_exec (fst co) S (snd co) = Fault -> sys_step S co = (S, VFault, []).
+  Proof. intros S co H. unfold EpochSystem.sys_step. by rewrite H. Qed.
+
+  (** The C09 tick theorems hold verbatim for ticks delivered through Netmap:
+      a successful netmap.newEpoch(e) with Balance subscribed IS a successful
+      Balance [NewEpoch e] step (so every theorem about such a step applies);
+      instantiated: all due locks are released in full to their parents,
+      exactly once, nothing else moves. *)
+  Theorem C09_via_netmap : forall ops c e S' r ns,
+    let S := reach ops in
+    sys_exec c S (SNm (NewEpoch e)) = Halt (S', r, ns) -> balH ∈ subscribers (s_nm S) ->
+    (exists r' bns, Balance.bexec (callee c) (s_bal S) (Balance.NewEpoch e) = Halt (s_bal S', r', bns)) /\
+    (BalanceLock.nochain e (Balance.accts (s_bal S)) ->
+       Balance.supply (s_bal S') = Balance.supply (s_bal S) /\
+       (forall k, BalanceLock.due e (Balance.accts (s_bal S)) k = true -> Balance.accts (s_bal S') !! k = None) /\
+       (forall k, BalanceLock.due e (Balance.accts (s_bal S)) k = false ->
+          Balance.get_acc (Balance.accts (s_bal S')) k =
+          Balance.mkAcc (Balance.balance_of (s_bal S) k +
+                         BalanceLock.paid e (Balance.accts (s_bal S)) (skeys (Balance.accts (s_bal S))) k)
+                        (Balance.until (Balance.get_acc (Balance.accts (s_bal S)) k))
+                        (Balance.parent (Balance.get_acc (Balance.accts (s_bal S)) k)))) /\
+    (forall k, BalanceLock.due e (Balance.accts (s_bal S)) k = false ->
+       Balance.until (Balance.get_acc (Balance.accts (s_bal S')) k) = Balance.until (Balance.get_acc (Balance.accts (s_bal S)) k) /\
+       Balance.parent (Balance.get_acc (Balance.accts (s_bal S')) k) = Balance.parent (Balance.get_acc (Balance.accts (s_bal S)) k) /\
+       Balance.balance_of (s_bal S) k <= Balance.balance_of (s_bal S') k).
+  Proof.
+    intros ops c e S' r ns S He Hin. pose proof (reach_inv ops) as Hi. fold S in Hi.
+    destruct (sys_tick_balance d1 d2 cap nmH balH cntH other_ok other_accepts Hdistinct c S e _ _ _ Hi He) as [B1 _].
+    destruct (B1 Hin) as (r' & bns & Hb). split; [eauto|]. split.
+    - intros Hnc. destruct (C09.C09_tick_releases_all _ _ _ _ _ _ Hb Hnc) as (_ & H1 & H2 & H3). auto.
+    - intros k Hk. exact (C09.C09_early_tick_inert _ _ _ _ _ _ k Hb Hk).
+  Qed.
+
+  (** The C20 clean-up rule holds for ticks delivered through Netmap: a
+      successful netmap.newEpoch(n) with Container subscribed IS an accepted
+      container tick [n]; on the storage reached by estimation history [eops]:
+      exactly the entries with [n - epoch > TotalCleanupDelta] are gone. *)
+  Theorem C20_cleanup_via_netmap : forall ops c n S' r ns,
+    let S := reach ops in
+    sys_exec c S (SNm (NewEpoch n)) = Halt (S', r, ns) -> cntH ∈ subscribers (s_nm S) ->
+    Estimations.eexec d1 d2 cap (s_est S) (Estimations.ETick (s_alpha c) n) = Halt (s_est S') /\
+    (forall eops, s_est S = Estimations.erun d1 d2 cap eops -> 0 <= d1 -> Stores.ehist_ok eops ->
+       forall e cid h, length cid = Estimations.cid_size -> length h = Estimations.postfix_size ->
+         Estimations.ests (s_est S') !! Stores.ekey' (e, cid, h) =
+         if n - e >? d2 then None else Estimations.ests (s_est S) !! Stores.ekey' (e, cid, h)).
+  Proof.
+    intros ops c n S' r ns S He Hin. pose proof (reach_inv ops) as Hi. fold S in Hi.
+    destruct (sys_tick_estimations d1 d2 cap nmH balH cntH other_ok other_accepts Hdistinct c S n _ _ _ Hi He) as [E1 _].
+    specialize (E1 Hin). split; [exact E1|].
+    intros eops Heq Hd Hok e cid h Hc Hh. rewrite Heq in E1 |- *.
+    exact (C20.C20_cleanup_tick_storage d1 d2 cap eops (s_alpha c) n (s_est S') Hd Hok E1 e cid h Hc Hh).
+  Qed.
+End Sys.
+Print Assumptions C06_system_tick.
+Print Assumptions C06_system_tick_iff.
+Print Assumptions C06_system_atomic.
+Print Assumptions C06_system_failed_is_inert.
+Print Assumptions C09_via_netmap.
+Print Assumptions C20_cleanup_via_netmap.
+
+(** Non-vacuity: Balance and Container subscribed (in that order) plus one
+    more contract; a lock due at epoch 2 is released by the tick delivered
+    through Netmap, an estimation of epoch 1 is cleaned by tick 6; a tick the
+    third subscriber rejects changes nothing anywhere. *)
+Definition xNm : bytes := repeat 1%N 20.
+Definition xBal : bytes := repeat 2%N 20.
+Definition xCnt : bytes := repeat 3%N 20.
+Definition xOth : bytes := repeat 4%N 20.
+Definition xU : bytes := repeat 7%N 20.
+Definition xL : bytes := repeat 8%N 20.
+Definition xK : bytes := 2%N :: repeat 5%N 32.
+Definition xInfo : bytes := [0%N; 0%N] ++ xK ++ [9%N].
+Definition xCid : bytes := repeat 6%N 32.
+Definition xH20 : bytes := repeat 9%N 20.
+Definition xal (h : Z) : sctx := mkSC [] [] true h.
+Definition xrun := sys_run_from 3 4 (fun _ => true) xNm xBal xCnt (fun _ => true) (fun _ e => negb (e =? 5)).
+Definition xhist : list (sctx * sop) :=
+  [ (xal 1, SNm (Subscribe xBal)); (xal 2, SNm (Subscribe xCnt)); (xal 3, SNm (Subscribe xOth));
+    (xal 4, SBal (Balance.Mint xU 1000 [])); (xal 5, SBal (Balance.Lock [] xU xL 300 2));
+    (xal 6, SNm (AddPeerIR xInfo)); (xal 7, SNm (NewEpoch 1)); (xal 8, SNm (NewEpoch 2));
+    (mkSC [xK] [] false 9, SPutSize [xCid] 1 xCid 77 xK xH20);
+    (xal 10, SNm (NewEpoch 5));   (* rejected by the third subscriber *)
+    (xal 11, SNm (NewEpoch 6)) ].
+Example C06_system_nonvacuous :
+  let S8 := xrun (sys_init []) (take 7 xhist) in
+  let S9 := xrun (sys_init []) (take 8 xhist) in
+  let S10 := xrun (sys_init []) (take 9 xhist) in
+  let S11 := xrun (sys_init []) (take 10 xhist) in
+  let S12 := xrun (sys_init []) xhist in
+  (Balance.balance_of (s_bal S8) xU, Balance.balance_of (s_bal S8) xL) = (700, 300) /\
+  (Balance.balance_of (s_bal S9) xU, Balance.balance_of (s_bal S9) xL) = (1000, 0) /\
+  length (Estimations.eiter_all (Estimations.ests (s_est S10)) 1) = 1%nat /\
+  (epoch (s_nm S11), length (Estimations.eiter_all (Estimations.ests (s_est S11)) 1)) = (2, 1%nat) /\
+  (epoch (s_nm S12), length (Estimations.eiter_all (Estimations.ests (s_est S12)) 1)) = (6, 0%nat) /\
+  subscribers (s_nm S12) = [xBal; xCnt; xOth].
+Proof. vm_compute. repeat split; reflexivity. Qed.
